@@ -263,6 +263,12 @@ def search(chk: common.Check, rng, n: int, tier: str):  # noqa: C901, PLR0912, P
         if len(bad) > 20:
             break
     bad += accuracy_oracle(chk, rng, max(40, n // 3), fs)
+    # numbers vs symbols, exact boundaries, compound arguments / generated code, defaults (notes/HARDENING.md)
+    from tools.search import C11_exact
+
+    hard, hinfo = C11_exact.hardening_oracle(chk, rng, tier)
+    chk.info("hardening_oracle", hinfo)
+    bad += hard
     return bad
 
 
@@ -449,6 +455,6 @@ MANIFEST = {
         "lambdified variant against its own 50-digit value on a grid with mass ratios 1..1e8 (incl. m1=1000, m2=1e-5) near, between, above, "
         "below the thresholds and at negative s: |error| <= 64 * 2^-53 * (first-order running error bound of the documented formula, "
         "computed per point); the worst error/bound ratio of the tree under test is recorded per variant in the evidence (clean tree: "
-        "<= 1.7 over 150 000 evaluations), so an algebraically identical but cancelling rewrite is reported with a concrete point."
+        "<= 1.7 over 150 000 evaluations), so an algebraically identical but cancelling rewrite is reported with a concrete point. A hardening oracle (tools/search/C11_exact.py) checks on every run: numbers vs symbols for every public callable incl. equal/zero masses and s exactly at the thresholds, the Piecewise branches exactly on their boundaries, ComplexSqrt on numbers and on compound arguments in generated numpy code (cse off/on, real and complex inputs, folded vs unfolded), name= defaults. Observed on the pinned tree and NOT counted: ComplexSqrt._pythoncode (modules=\"math\") loses parentheses for sum arguments (notes/findings_C11.md)."
     ),
 }
